@@ -118,7 +118,20 @@ pub fn honest_presentation(cfg: &Cfg, selection: &Map<String, J>) -> Result<(Par
     };
     let kb = cfg.kb();
     match sut::present(&mut h, selection, kb.as_ref()) {
-        Out::Ok(p) => Ok((parts, p)),
+        Out::Ok(p) => {
+            if std::env::var("SDJWT_TRACE").is_ok() {
+                eprintln!("TRACE payload: {}", jstr(&J::Object(parts.payload().unwrap_or_default())));
+                for d in &parts.disclosures {
+                    eprintln!("TRACE disclosure: {}", crate::util::decode_disclosure(d).map(|v| jstr(&v)).unwrap_or_default());
+                }
+                if let Some(pp) = Parts::parse(&p, &cfg.format) {
+                    for d in &pp.disclosures {
+                        eprintln!("TRACE presented: {}", crate::util::decode_disclosure(d).map(|v| jstr(&v)).unwrap_or_default());
+                    }
+                }
+            }
+            Ok((parts, p))
+        }
         o => Err(fail(
             format!("create_presentation({}) -> {}", crate::util::short(&jstr(&J::Object(selection.clone())), 200), o.brief()),
             "Ok(presentation)",
